@@ -7,10 +7,11 @@ Each theorem `prime_<p|n>_<curve>` is proved from the kernel-checked Pocklington
 `Proofs/NamedPrimeCerts.lean` against the GENERATED constant (`Gen.curve_<curve>.p` / `.n`): if `curves.py` changes the
 number, membership in the chain fails and the proof breaks.
 
-Certified (30 of 34): NIST192p.p, NIST192p.n, NIST224p.p, NIST224p.n, NIST256p.p, NIST256p.n, NIST384p.p, NIST521p.p, SECP256k1.p, SECP256k1.n, BRAINPOOLP160r1.p, BRAINPOOLP160r1.n, BRAINPOOLP192r1.p, BRAINPOOLP192r1.n, BRAINPOOLP224r1.p, BRAINPOOLP224r1.n, BRAINPOOLP256r1.p, BRAINPOOLP256r1.n, BRAINPOOLP320r1.p, BRAINPOOLP320r1.n, BRAINPOOLP384r1.n, BRAINPOOLP512r1.n, SECP112r1.p, SECP112r1.n, SECP112r2.p, SECP112r2.n, SECP128r1.p, SECP128r1.n, SECP160r1.p, SECP160r1.n.
+Certified (34 of 34): NIST192p.p, NIST192p.n, NIST224p.p, NIST224p.n, NIST256p.p, NIST256p.n, NIST384p.p, NIST384p.n, NIST521p.p, NIST521p.n, SECP256k1.p, SECP256k1.n, BRAINPOOLP160r1.p, BRAINPOOLP160r1.n, BRAINPOOLP192r1.p, BRAINPOOLP192r1.n, BRAINPOOLP224r1.p, BRAINPOOLP224r1.n, BRAINPOOLP256r1.p, BRAINPOOLP256r1.n, BRAINPOOLP320r1.p, BRAINPOOLP320r1.n, BRAINPOOLP384r1.p, BRAINPOOLP384r1.n, BRAINPOOLP512r1.p, BRAINPOOLP512r1.n, SECP112r1.p, SECP112r1.n, SECP112r2.p, SECP112r2.n, SECP128r1.p, SECP128r1.n, SECP160r1.p, SECP160r1.n.
 
-STILL HYPOTHESES (4 of 34) — no certificate could be produced offline (N − 1 has no sufficiently large factored part
-within the factoring budget; an ECPP certificate would be needed): NIST384p.n, NIST521p.n, BRAINPOOLP384r1.p, BRAINPOOLP512r1.p.
+STILL HYPOTHESES (0 of 34): none.
+(The last four — NIST384p.n, NIST521p.n, BRAINPOOLP384r1.p, BRAINPOOLP512r1.p — needed a parallel ECM search for the factors of
+N − 1, `harness/tools/primecerts/gencert2.py`; sympy's `factorint` alone had given up on them.)
 
 For the curves whose p AND n are both certified the standing hypotheses hold UNCONDITIONALLY (`matches_<curve>_unconditional`):
 only `#E(𝔽_p) = n` remains a hypothesis, and only for recovery / point decoding (C14, C08).
@@ -24,8 +25,10 @@ theorem prime_p_NIST224p : Nat.Prime Gen.curve_NIST224p.p := NamedPrimes.A.prime
 theorem prime_n_NIST224p : Nat.Prime Gen.curve_NIST224p.n := NamedPrimes.B.prime_of_mem (by decide +kernel)
 theorem prime_p_NIST256p : Nat.Prime Gen.curve_NIST256p.p := NamedPrimes.C.prime_of_mem (by decide +kernel)
 theorem prime_n_NIST256p : Nat.Prime Gen.curve_NIST256p.n := NamedPrimes.D.prime_of_mem (by decide +kernel)
-theorem prime_p_NIST384p : Nat.Prime Gen.curve_NIST384p.p := NamedPrimes.C.prime_of_mem (by decide +kernel)
+theorem prime_p_NIST384p : Nat.Prime Gen.curve_NIST384p.p := NamedPrimes.A.prime_of_mem (by decide +kernel)
+theorem prime_n_NIST384p : Nat.Prime Gen.curve_NIST384p.n := NamedPrimes.B.prime_of_mem (by decide +kernel)
 theorem prime_p_NIST521p : Nat.Prime Gen.curve_NIST521p.p := NamedPrimes.A.prime_of_mem (by decide +kernel)
+theorem prime_n_NIST521p : Nat.Prime Gen.curve_NIST521p.n := NamedPrimes.B.prime_of_mem (by decide +kernel)
 theorem prime_p_SECP256k1 : Nat.Prime Gen.curve_SECP256k1.p := NamedPrimes.A.prime_of_mem (by decide +kernel)
 theorem prime_n_SECP256k1 : Nat.Prime Gen.curve_SECP256k1.n := NamedPrimes.B.prime_of_mem (by decide +kernel)
 theorem prime_p_BRAINPOOLP160r1 : Nat.Prime Gen.curve_BRAINPOOLP160r1.p := NamedPrimes.A.prime_of_mem (by decide +kernel)
@@ -38,8 +41,10 @@ theorem prime_p_BRAINPOOLP256r1 : Nat.Prime Gen.curve_BRAINPOOLP256r1.p := Named
 theorem prime_n_BRAINPOOLP256r1 : Nat.Prime Gen.curve_BRAINPOOLP256r1.n := NamedPrimes.D.prime_of_mem (by decide +kernel)
 theorem prime_p_BRAINPOOLP320r1 : Nat.Prime Gen.curve_BRAINPOOLP320r1.p := NamedPrimes.A.prime_of_mem (by decide +kernel)
 theorem prime_n_BRAINPOOLP320r1 : Nat.Prime Gen.curve_BRAINPOOLP320r1.n := NamedPrimes.B.prime_of_mem (by decide +kernel)
+theorem prime_p_BRAINPOOLP384r1 : Nat.Prime Gen.curve_BRAINPOOLP384r1.p := NamedPrimes.C.prime_of_mem (by decide +kernel)
 theorem prime_n_BRAINPOOLP384r1 : Nat.Prime Gen.curve_BRAINPOOLP384r1.n := NamedPrimes.D.prime_of_mem (by decide +kernel)
-theorem prime_n_BRAINPOOLP512r1 : Nat.Prime Gen.curve_BRAINPOOLP512r1.n := NamedPrimes.B.prime_of_mem (by decide +kernel)
+theorem prime_p_BRAINPOOLP512r1 : Nat.Prime Gen.curve_BRAINPOOLP512r1.p := NamedPrimes.C.prime_of_mem (by decide +kernel)
+theorem prime_n_BRAINPOOLP512r1 : Nat.Prime Gen.curve_BRAINPOOLP512r1.n := NamedPrimes.D.prime_of_mem (by decide +kernel)
 theorem prime_p_SECP112r1 : Nat.Prime Gen.curve_SECP112r1.p := NamedPrimes.C.prime_of_mem (by decide +kernel)
 theorem prime_n_SECP112r1 : Nat.Prime Gen.curve_SECP112r1.n := NamedPrimes.D.prime_of_mem (by decide +kernel)
 theorem prime_p_SECP112r2 : Nat.Prime Gen.curve_SECP112r2.p := NamedPrimes.A.prime_of_mem (by decide +kernel)
@@ -66,6 +71,18 @@ instance : Fact (Nat.Prime Gen.curve_NIST256p.p) := ⟨prime_p_NIST256p⟩
 theorem matches_NIST256p_unconditional :
     OnCurve.Matches (crvOf Gen.curve_NIST256p) (baseCtx Gen.curve_NIST256p (checked_of_mem mem_NIST256p)) :=
   matches_NIST256p prime_n_NIST256p
+
+instance : Fact (Nat.Prime Gen.curve_NIST384p.p) := ⟨prime_p_NIST384p⟩
+/-- NIST384p: the standing hypotheses of the ECDSA-level theorems with NO primality hypothesis left -/
+theorem matches_NIST384p_unconditional :
+    OnCurve.Matches (crvOf Gen.curve_NIST384p) (baseCtx Gen.curve_NIST384p (checked_of_mem mem_NIST384p)) :=
+  matches_NIST384p prime_n_NIST384p
+
+instance : Fact (Nat.Prime Gen.curve_NIST521p.p) := ⟨prime_p_NIST521p⟩
+/-- NIST521p: the standing hypotheses of the ECDSA-level theorems with NO primality hypothesis left -/
+theorem matches_NIST521p_unconditional :
+    OnCurve.Matches (crvOf Gen.curve_NIST521p) (baseCtx Gen.curve_NIST521p (checked_of_mem mem_NIST521p)) :=
+  matches_NIST521p prime_n_NIST521p
 
 instance : Fact (Nat.Prime Gen.curve_SECP256k1.p) := ⟨prime_p_SECP256k1⟩
 /-- SECP256k1: the standing hypotheses of the ECDSA-level theorems with NO primality hypothesis left -/
@@ -103,6 +120,18 @@ theorem matches_BRAINPOOLP320r1_unconditional :
     OnCurve.Matches (crvOf Gen.curve_BRAINPOOLP320r1) (baseCtx Gen.curve_BRAINPOOLP320r1 (checked_of_mem mem_BRAINPOOLP320r1)) :=
   matches_BRAINPOOLP320r1 prime_n_BRAINPOOLP320r1
 
+instance : Fact (Nat.Prime Gen.curve_BRAINPOOLP384r1.p) := ⟨prime_p_BRAINPOOLP384r1⟩
+/-- BRAINPOOLP384r1: the standing hypotheses of the ECDSA-level theorems with NO primality hypothesis left -/
+theorem matches_BRAINPOOLP384r1_unconditional :
+    OnCurve.Matches (crvOf Gen.curve_BRAINPOOLP384r1) (baseCtx Gen.curve_BRAINPOOLP384r1 (checked_of_mem mem_BRAINPOOLP384r1)) :=
+  matches_BRAINPOOLP384r1 prime_n_BRAINPOOLP384r1
+
+instance : Fact (Nat.Prime Gen.curve_BRAINPOOLP512r1.p) := ⟨prime_p_BRAINPOOLP512r1⟩
+/-- BRAINPOOLP512r1: the standing hypotheses of the ECDSA-level theorems with NO primality hypothesis left -/
+theorem matches_BRAINPOOLP512r1_unconditional :
+    OnCurve.Matches (crvOf Gen.curve_BRAINPOOLP512r1) (baseCtx Gen.curve_BRAINPOOLP512r1 (checked_of_mem mem_BRAINPOOLP512r1)) :=
+  matches_BRAINPOOLP512r1 prime_n_BRAINPOOLP512r1
+
 instance : Fact (Nat.Prime Gen.curve_SECP112r1.p) := ⟨prime_p_SECP112r1⟩
 /-- SECP112r1: the standing hypotheses of the ECDSA-level theorems with NO primality hypothesis left -/
 theorem matches_SECP112r1_unconditional :
@@ -128,25 +157,54 @@ theorem matches_SECP160r1_unconditional :
   matches_SECP160r1 prime_n_SECP160r1
 
 /-- the curves for which everything but `#E = n` is machine-checked -/
-def unconditionalCurves : List Gen.CurveRow := [Gen.curve_NIST192p, Gen.curve_NIST224p, Gen.curve_NIST256p, Gen.curve_SECP256k1, Gen.curve_BRAINPOOLP160r1, Gen.curve_BRAINPOOLP192r1, Gen.curve_BRAINPOOLP224r1, Gen.curve_BRAINPOOLP256r1, Gen.curve_BRAINPOOLP320r1, Gen.curve_SECP112r1, Gen.curve_SECP112r2, Gen.curve_SECP128r1, Gen.curve_SECP160r1]
+def unconditionalCurves : List Gen.CurveRow := [Gen.curve_NIST192p, Gen.curve_NIST224p, Gen.curve_NIST256p, Gen.curve_NIST384p, Gen.curve_NIST521p, Gen.curve_SECP256k1, Gen.curve_BRAINPOOLP160r1, Gen.curve_BRAINPOOLP192r1, Gen.curve_BRAINPOOLP224r1, Gen.curve_BRAINPOOLP256r1, Gen.curve_BRAINPOOLP320r1, Gen.curve_BRAINPOOLP384r1, Gen.curve_BRAINPOOLP512r1, Gen.curve_SECP112r1, Gen.curve_SECP112r2, Gen.curve_SECP128r1, Gen.curve_SECP160r1]
 
 theorem unconditional_subset : ∀ r ∈ unconditionalCurves, r ∈ Gen.curveTable ∧ Nat.Prime r.p ∧ Nat.Prime r.n := by
   intro r hr
   simp only [unconditionalCurves, List.mem_cons, List.mem_nil_iff, or_false] at hr
-  rcases hr with rfl | rfl | rfl | rfl | rfl | rfl | rfl | rfl | rfl | rfl | rfl | rfl | rfl
+  rcases hr with rfl | rfl | rfl | rfl | rfl | rfl | rfl | rfl | rfl | rfl | rfl | rfl | rfl | rfl | rfl | rfl | rfl
   · exact ⟨mem_NIST192p, prime_p_NIST192p, prime_n_NIST192p⟩
   · exact ⟨mem_NIST224p, prime_p_NIST224p, prime_n_NIST224p⟩
   · exact ⟨mem_NIST256p, prime_p_NIST256p, prime_n_NIST256p⟩
+  · exact ⟨mem_NIST384p, prime_p_NIST384p, prime_n_NIST384p⟩
+  · exact ⟨mem_NIST521p, prime_p_NIST521p, prime_n_NIST521p⟩
   · exact ⟨mem_SECP256k1, prime_p_SECP256k1, prime_n_SECP256k1⟩
   · exact ⟨mem_BRAINPOOLP160r1, prime_p_BRAINPOOLP160r1, prime_n_BRAINPOOLP160r1⟩
   · exact ⟨mem_BRAINPOOLP192r1, prime_p_BRAINPOOLP192r1, prime_n_BRAINPOOLP192r1⟩
   · exact ⟨mem_BRAINPOOLP224r1, prime_p_BRAINPOOLP224r1, prime_n_BRAINPOOLP224r1⟩
   · exact ⟨mem_BRAINPOOLP256r1, prime_p_BRAINPOOLP256r1, prime_n_BRAINPOOLP256r1⟩
   · exact ⟨mem_BRAINPOOLP320r1, prime_p_BRAINPOOLP320r1, prime_n_BRAINPOOLP320r1⟩
+  · exact ⟨mem_BRAINPOOLP384r1, prime_p_BRAINPOOLP384r1, prime_n_BRAINPOOLP384r1⟩
+  · exact ⟨mem_BRAINPOOLP512r1, prime_p_BRAINPOOLP512r1, prime_n_BRAINPOOLP512r1⟩
   · exact ⟨mem_SECP112r1, prime_p_SECP112r1, prime_n_SECP112r1⟩
   · exact ⟨mem_SECP112r2, prime_p_SECP112r2, prime_n_SECP112r2⟩
   · exact ⟨mem_SECP128r1, prime_p_SECP128r1, prime_n_SECP128r1⟩
   · exact ⟨mem_SECP160r1, prime_p_SECP160r1, prime_n_SECP160r1⟩
+
+/-- every row of the generated curve table is certified: all 34 numbers are prime, with no hypothesis -/
+theorem all_table_primes : ∀ r ∈ Gen.curveTable, Nat.Prime r.p ∧ Nat.Prime r.n := by
+  intro r hr
+  simp only [Gen.curveTable, List.mem_cons, List.mem_nil_iff, or_false] at hr
+  rcases hr with rfl | rfl | rfl | rfl | rfl | rfl | rfl | rfl | rfl | rfl | rfl | rfl | rfl | rfl | rfl | rfl | rfl
+  · exact ⟨prime_p_NIST192p, prime_n_NIST192p⟩
+  · exact ⟨prime_p_NIST224p, prime_n_NIST224p⟩
+  · exact ⟨prime_p_NIST256p, prime_n_NIST256p⟩
+  · exact ⟨prime_p_NIST384p, prime_n_NIST384p⟩
+  · exact ⟨prime_p_NIST521p, prime_n_NIST521p⟩
+  · exact ⟨prime_p_SECP256k1, prime_n_SECP256k1⟩
+  · exact ⟨prime_p_BRAINPOOLP160r1, prime_n_BRAINPOOLP160r1⟩
+  · exact ⟨prime_p_BRAINPOOLP192r1, prime_n_BRAINPOOLP192r1⟩
+  · exact ⟨prime_p_BRAINPOOLP224r1, prime_n_BRAINPOOLP224r1⟩
+  · exact ⟨prime_p_BRAINPOOLP256r1, prime_n_BRAINPOOLP256r1⟩
+  · exact ⟨prime_p_BRAINPOOLP320r1, prime_n_BRAINPOOLP320r1⟩
+  · exact ⟨prime_p_BRAINPOOLP384r1, prime_n_BRAINPOOLP384r1⟩
+  · exact ⟨prime_p_BRAINPOOLP512r1, prime_n_BRAINPOOLP512r1⟩
+  · exact ⟨prime_p_SECP112r1, prime_n_SECP112r1⟩
+  · exact ⟨prime_p_SECP112r2, prime_n_SECP112r2⟩
+  · exact ⟨prime_p_SECP128r1, prime_n_SECP128r1⟩
+  · exact ⟨prime_p_SECP160r1, prime_n_SECP160r1⟩
+
+theorem table_unconditional : ∀ r ∈ Gen.curveTable, r ∈ unconditionalCurves := by decide +kernel
 
 /-- headline, unconditional: on these curves every signature made by `sign_digest` verifies (C01) — no hypothesis about the
 curve is left -/
